@@ -6,6 +6,7 @@ import (
 	"sort"
 
 	"github.com/btcsuite/btcd/wire/v2"
+	graphdb "github.com/lightningnetwork/lnd/graph/db"
 	"github.com/lightningnetwork/lnd/graph/db/models"
 	"github.com/lightningnetwork/lnd/lnwire"
 	"github.com/lightningnetwork/lnd/netann"
@@ -20,6 +21,11 @@ type pPolicy struct {
 	wire []byte
 	ts   uint32
 	err  string
+	// the routing-relevant fields as stored (compared with the in-memory
+	// graph cache, which is what path finding actually reads)
+	cltv                uint16
+	min, max, base, ppm uint64
+	disabled            bool
 }
 
 type pChan struct {
@@ -48,7 +54,9 @@ func projPolicy(info *models.ChannelEdgeInfo, p *models.ChannelEdgePolicy) *pPol
 	if p == nil {
 		return nil
 	}
-	out := &pPolicy{ts: uint32(p.LastUpdate.Unix())}
+	out := &pPolicy{ts: uint32(p.LastUpdate.Unix()), cltv: p.TimeLockDelta,
+		min: uint64(p.MinHTLC), max: uint64(p.MaxHTLC), base: uint64(p.FeeBaseMSat),
+		ppm: uint64(p.FeeProportionalMillionths), disabled: p.IsDisabled()}
 	upd, err := netann.ChannelUpdateFromEdge(info, p)
 	if err != nil {
 		out.err = err.Error()
@@ -166,4 +174,71 @@ func (p *projection) summary() string {
 	}
 	fmt.Fprintf(&b, " nodes=%d/%d", full, len(p.nodes))
 	return b.String()
+}
+
+// checkCache compares the in-memory graph cache (what path finding reads
+// through ForEachNodeDirectedChannel) with the database projection: same
+// channels, same capacity, same routing policy fields in both directions.
+func (w *World) checkCache(pr *projection, what string) {
+	r := w.r
+	if w.cg.GraphCacheStatus() != graphdb.GraphCacheStatusLoaded {
+		r.Harness("graph cache not loaded")
+	}
+	keys := map[[33]byte]bool{}
+	for k := range pr.nodes {
+		keys[k] = true
+	}
+	for _, c := range pr.chans {
+		keys[c.node[0]] = true
+		keys[c.node[1]] = true
+	}
+	var sorted [][33]byte
+	for k := range keys {
+		sorted = append(sorted, k)
+	}
+	sort.Slice(sorted, func(i, j int) bool { return bytes.Compare(sorted[i][:], sorted[j][:]) < 0 })
+	seen := 0
+	for _, k := range sorted {
+		err := w.cg.ForEachNodeDirectedChannel(w.ctx, k, func(dc *graphdb.DirectedChannel) error {
+			seen++
+			c := pr.chans[dc.ChannelID]
+			id := scidStr(dc.ChannelID)
+			if c == nil {
+				r.Fail("cache-mismatch", "%s: path-finding cache holds channel %s (at node %s) that the graph database does not", what, id, short(k[:]))
+			}
+			i := 0
+			if !dc.IsNode1 {
+				i = 1
+			}
+			if c.node[i] != k || c.node[1-i] != [33]byte(dc.OtherNode) {
+				r.Fail("cache-mismatch", "%s: cache has channel %s under other node keys than the database", what, id)
+			}
+			if int64(dc.Capacity) != c.capacity {
+				r.Fail("cache-mismatch", "%s: cache capacity of %s is %d, database %d", what, id, dc.Capacity, c.capacity)
+			}
+			if dc.OutPolicySet != (c.pol[i] != nil) {
+				r.Fail("cache-mismatch", "%s: cache says outgoing policy of %s/%d set=%v, database has=%v", what, id, i, dc.OutPolicySet, c.pol[i] != nil)
+			}
+			in := c.pol[1-i]
+			if (dc.InPolicy != nil) != (in != nil) {
+				r.Fail("cache-mismatch", "%s: cache incoming policy of %s/%d present=%v, database=%v", what, id, 1-i, dc.InPolicy != nil, in != nil)
+			}
+			if in != nil {
+				p := dc.InPolicy
+				if p.TimeLockDelta != in.cltv || uint64(p.MinHTLC) != in.min || uint64(p.MaxHTLC) != in.max ||
+					uint64(p.FeeBaseMSat) != in.base || uint64(p.FeeProportionalMillionths) != in.ppm ||
+					p.IsDisabled != in.disabled {
+
+					r.Fail("cache-mismatch", "%s: cached policy %s/%d (cltv=%d min=%d max=%d fee=%d/%d disabled=%v) differs from database (cltv=%d min=%d max=%d fee=%d/%d disabled=%v)",
+						what, id, 1-i, p.TimeLockDelta, p.MinHTLC, p.MaxHTLC, p.FeeBaseMSat, p.FeeProportionalMillionths, p.IsDisabled,
+						in.cltv, in.min, in.max, in.base, in.ppm, in.disabled)
+				}
+			}
+			return nil
+		}, func() {})
+		r.Must(err, "ForEachNodeDirectedChannel")
+	}
+	if seen != 2*len(pr.chans) {
+		r.Fail("cache-mismatch", "%s: path-finding cache holds %d directed channel entries, the database has %d channels", what, seen, len(pr.chans))
+	}
 }
